@@ -8,7 +8,7 @@ PROOF_MODULES = ["GrpcProofs.Properties.C51"]
 THEOREMS = ["GrpcProofs.C51." + t for t in (
     "selected_cluster_in_config_until_commit", "commit_at_most_once", "refcount_is_selector_plus_inflight",
     "selected_cluster_in_xdsconfig_until_commit_counterexample", "witness_facts", "stale_snapshot_counterexample",
-    "dropped_after_last_reference_counterexample")]
+    "dropped_after_last_reference_counterexample", "dropped_after_last_reference_partial")]
 DESIGN_REF = "DESIGN.md section 8, C51"
 TECHNIQUE = ("Lean 4 model of the resolver's cluster reference counting and of the dependency manager's cluster subscriptions "
              "(ops: route update at the dependency manager, delivery of a queued Update to the resolver, SelectConfig, OnCommitted), "
